@@ -49,6 +49,13 @@ structure Facts (cfg : Config) : Prop where
   regRoot : cfg.regRoot = some true
   delViaCollector : cfg.delViaCollector = true
   gcSetOnlyAllocBy : cfg.gcSetOnlyAllocBy = true
+  swClear : cfg.swClear = .before
+  swFinalises : cfg.swFinalises = true
+  swUnlistsFirst : cfg.swUnlistsFirst = true
+  remPendClear : cfg.remPendClear = .before
+  remPendFinalises : cfg.remPendFinalises = true
+  remRegErase : cfg.remRegErase = .before
+  boxDelDeletes : cfg.boxDelDeletes = true
 
 theorem facts_of_sound {cfg : Config} (h : cfg.Sound = true) : Facts cfg := by
   simp only [Config.Sound, Bool.and_eq_true, bne_iff_ne, ne_eq, beq_iff_eq, Option.isNone_iff_eq_none] at h
